@@ -206,7 +206,7 @@ Definition tag (c : case) : N :=
       (2 + (match o with Success => 0 | ProcessError => 2 | CoordinatorSilent => 4
                         | GlobalTimeout => 6 | Cancelled => 8 end)
          + (match r with Coord => 0 | Peer => 1 end)
-         + (match ph with BeforeStart => 0 | DuringRun => 10 end))%N
+         + (match ph with BeforeStart => 0 | DuringRun => 10 | BeforeEntry => 50 end))%N
   | Streams _ _ _ fails _ _ => if existsb (fun b => b) fails then 32%N else 30%N
   | Storm _ _ => 33%N
   | Comm _ fails _ _ => if existsb (fun b => b) fails then 35%N else 34%N
